@@ -51,7 +51,8 @@ let handle = function
     (match db_recs rd (z_of_int n) (z_of_string dbid) with
      | None -> "NONE"
      | Some nodes ->
-       "OK" ^ String.concat "" (List.map (fun recs ->
+       (* canon: the image holds the encoding (write_sblk / write_kvblk_head / write_rec) of every decoded node *)
+       (if db_canonical rd (z_of_int n) (z_of_string dbid) then "OK" else "NOTCANONICAL") ^ String.concat "" (List.map (fun recs ->
          " |" ^ String.concat "," (List.map (fun (k, v) -> hex_of_bytes k ^ ":" ^ string_of_int (List.length v) ^ ":" ^ string_of_int (fnv v)) recs)) nodes))
   | [] -> ""
   | _ -> "?"
